@@ -905,7 +905,7 @@ func vWorkers() int {
 		return n
 	}
 
-	return max(2, runtime.NumCPU()/2)
+	return max(2, runtime.NumCPU()*3/4)
 }
 
 // TestVerifC15Replay runs the histories given in the JSON file $VERIF_IN ([{mode,init,events}]) and
